@@ -117,6 +117,7 @@ class Summaries:
                 c |= cc
                 unk = unk or uu
             self.direct[name], self.calls[name], self.unknown[name] = w, c, unk
+        self.param_mut = {name: any(self._mutates_params(fn) for fn in fns) for name, fns in defs.items()}
         # configuration attributes: stored by constructors only -- code outside the package (user actions,
         # recognisers, filters) is taken not to re-configure a parser / grammar behind its back
         in_init, elsewhere = set(), set()
@@ -143,10 +144,11 @@ class Summaries:
                         self.unknown[name] = True
                         changed = True
                     if c in defs:
-                        before = (len(self.direct[name]), self.unknown[name])
+                        before = (len(self.direct[name]), self.unknown[name], self.param_mut[name])
                         self.direct[name] |= self.direct[c]
                         self.unknown[name] = self.unknown[name] or self.unknown[c]
-                        if (len(self.direct[name]), self.unknown[name]) != before:
+                        self.param_mut[name] = self.param_mut[name] or self.param_mut[c]  # (it may pass its own parameters on)
+                        if (len(self.direct[name]), self.unknown[name], self.param_mut[name]) != before:
                             changed = True
 
     def computing_properties(self):
@@ -176,6 +178,59 @@ class Summaries:
         object or may run unknown code (transitively)"""
         raising = self.raising_names()
         return {n for n in self.defs if not self.direct[n] and not self.unknown[n] and n != "__init__" and n not in raising}
+
+    def _mutates_params(self, fn):
+        """does fn store into / call a mutator on a container it was handed as a parameter (or one reached from it by
+        subscripts)?  Such a write has no attribute name; the caller accounts for it on the arguments it passes"""
+        params = {a.arg for a in fn.args.args + fn.args.kwonlyargs if a.arg not in ("self", "cls")}
+        if fn.args.vararg:
+            params.add(fn.args.vararg.arg)
+        for n in ast.walk(fn):
+            b = None
+            if isinstance(n, ast.Subscript) and isinstance(n.ctx, (ast.Store, ast.Del)):
+                b = n.value
+            elif isinstance(n, ast.Call) and isinstance(n.func, ast.Attribute) and n.func.attr in MUTATORS:
+                b = n.func.value
+            elif isinstance(n, ast.AugAssign) and isinstance(n.target, ast.Name):
+                b = n.target  # `p += [..]` extends a list in place
+            while isinstance(b, ast.Subscript):
+                b = b.value
+            if isinstance(b, ast.Name) and b.id in params:
+                return True
+        return False
+
+    def call_mutates_args(self, cname):
+        if cname in self.classes:
+            m = self.ctor.get(cname)
+            if m is not None:
+                return self._mutates_params(m) or any(
+                    self.param_mut.get(c) if c in self.defs else (c in self.classes and self.param_mut.get("__init__")) for c in self._scan(m)[1])
+            return bool(self.param_mut.get("__init__"))
+        return bool(self.param_mut.get(cname))
+
+    def call_may_raise(self, call):
+        """may the call raise on its own account: an explicit `raise` in the callee (transitively, by name), or code the
+        package does not define?"""
+        if not hasattr(self, "_raising"):
+            self._raising = self.raising_names()
+        f = call.func
+        name = f.attr if isinstance(f, ast.Attribute) else f.id if isinstance(f, ast.Name) else None
+        if name is None:
+            return True
+        if isinstance(f, ast.Name) and (name in PURE_FUNCS or name in PRINT_FUNCS):
+            return False
+        if isinstance(f, ast.Attribute) and (name in PURE_METHODS or name in MUTATORS or name in PRINT_FUNCS):
+            return False
+        if name in self.classes:
+            m = self.ctor.get(name)
+            if m is None:
+                return "__init__" in self._raising
+            if any(isinstance(x, ast.Raise) for x in ast.walk(m)):
+                return True
+            return any((c in self._raising) or (c not in self.defs and c not in self.classes and c not in HARMLESS_EXTERNAL) for c in self._scan(m)[1])
+        if name in self.defs:
+            return name in self._raising or self.unknown[name]
+        return True
 
     def _scan(self, fn):
         w, c, unk = set(), set(), False
@@ -374,6 +429,14 @@ def writes_of(stmt, summ):
             w, unk = summ.call_effect(n)
             attrs |= w
             unknown = unknown or unk
+            cname = f.attr if isinstance(f, ast.Attribute) else f.id if isinstance(f, ast.Name) else None
+            if cname is not None and summ.call_mutates_args(cname):
+                for a in list(n.args) + [k.value for k in n.keywords]:
+                    a = a.value if isinstance(a, ast.Starred) else a
+                    if not isinstance(a, ast.Constant):
+                        conts.add(unparse(a))
+                        if isinstance(a, ast.Attribute):
+                            attrs.add(a.attr)  # the container is also reachable as <anything>.<attr>
     return names, attrs, conts, unknown
 
 
@@ -1363,6 +1426,95 @@ def _mentions(name, node):
     return any((isinstance(n, ast.Name) and n.id == name) or (isinstance(n, ast.arg) and n.arg == name) for n in ast.walk(node))
 
 
+# --------------------------------------------------------------------------- N-order
+_BARRIERS = (ast.Return, ast.Raise, ast.Break, ast.Continue, ast.Yield, ast.YieldFrom, ast.Await, ast.Try, ast.With, ast.Assert, ast.Global,
+             ast.Nonlocal, ast.Import, ast.ImportFrom, ast.FunctionDef, ast.AsyncFunctionDef, ast.ClassDef, ast.Delete, ast.Lambda, ast.NamedExpr,
+             ast.While)
+
+
+def _order_facts(st, summ):
+    """what a statement reads and writes, for the question whether two neighbours can be exchanged; None: never moved"""
+    if isinstance(st, ast.Expr) and isinstance(st.value, ast.Constant):
+        return None
+    f = dict(rn=set(), wn=set(), ra=set(), wa=set(), cr=False, cw=False)
+    for n in ast.walk(st):
+        if isinstance(n, _BARRIERS):
+            return None
+        if isinstance(n, ast.Name):
+            (f["rn"] if isinstance(n.ctx, ast.Load) else f["wn"]).add(n.id)
+        elif isinstance(n, ast.Attribute):
+            (f["ra"] if isinstance(n.ctx, ast.Load) else f["wa"]).add(n.attr)
+            if n.attr in _COMPUTING_PROPS and n.attr not in _PURE_PACKAGE:
+                return None
+        elif isinstance(n, ast.Subscript):
+            if isinstance(n.ctx, ast.Load):
+                f["cr"] = True
+            else:
+                f["cw"] = True
+        elif isinstance(n, (ast.For, ast.comprehension, ast.Starred)):
+            f["cr"] = True
+        elif isinstance(n, ast.Compare) and any(isinstance(o, (ast.In, ast.NotIn, ast.Eq, ast.NotEq, ast.Lt, ast.Gt, ast.LtE, ast.GtE)) for o in n.ops):
+            f["cr"] = True  # (== on the package's objects compares fields and contents)
+        elif isinstance(n, ast.AugAssign):
+            f["cr"] = f["cw"] = True if not isinstance(n.target, ast.Name) else f["cw"]
+            if isinstance(n.target, ast.Name):
+                f["rn"].add(n.target.id)
+                f["cw"] = True  # `x += [..]` extends in place
+        elif isinstance(n, ast.Call):
+            w, unk = summ.call_effect(n)
+            if unk or summ.call_may_raise(n):
+                return None
+            f["wa"] |= w
+            f["cr"] = True
+            fn_ = n.func
+            cname = fn_.attr if isinstance(fn_, ast.Attribute) else fn_.id if isinstance(fn_, ast.Name) else None
+            if (isinstance(fn_, ast.Attribute) and fn_.attr in MUTATORS) or w or (cname is not None and summ.call_mutates_args(cname)):
+                f["cw"] = True
+    return f
+
+
+def _commute(a, b):
+    if a is None or b is None:
+        return False
+    if a["wn"] & (b["rn"] | b["wn"]) or b["wn"] & a["rn"]:
+        return False
+    if a["wa"] & (b["ra"] | b["wa"]) or b["wa"] & a["ra"]:
+        return False
+    if (a["cw"] and (b["cr"] or b["cw"])) or (b["cw"] and a["cr"]):
+        return False
+    return True
+
+
+class _Mask(ast.NodeTransformer):
+    def visit_Name(self, node):
+        return ast.Name(id="_", ctx=node.ctx)
+
+
+def n_order(block, summ):
+    """neighbouring statements that cannot influence one another (disjoint names, disjoint attribute names, at most one of
+    them touching container contents, neither able to raise on its own account or to run unknown code, no jumps) are put
+    into a canonical order: the least linearisation of the dependence order by the statements' text with locals masked"""
+    if len(block) < 2:
+        return block
+    facts = [_order_facts(s, summ) for s in block]
+    if sum(1 for x in facts if x is not None) < 2:
+        return block
+    keys = [ast.dump(_Mask().visit(copy.deepcopy(s))) for s in block]
+    n = len(block)
+    deps = [set() for _ in range(n)]
+    for j in range(n):
+        for i in range(j):
+            if not _commute(facts[i], facts[j]):
+                deps[j].add(i)
+    done, out = set(), []
+    while len(out) < n:
+        ready = [k for k in range(n) if k not in done and deps[k] <= done]
+        k = min(ready, key=lambda q: (keys[q], q))
+        done.add(k)
+        out.append(block[k])
+    return out
+
+
 # --------------------------------------------------------------------------- N-webs
 def n_webs(fn):
     """a local that is assigned several times, every time by a plain statement-level assignment whose value is read only
@@ -1563,6 +1715,12 @@ def _simple_ok(s, e, summ):
             if (ra & w) or (unk and _unstable(e, summ)) or (
                 isinstance(c.func, ast.Attribute) and c.func.attr in MUTATORS and unparse(c.func.value) in rc):
                 return False
+            cname = c.func.attr if isinstance(c.func, ast.Attribute) else c.func.id if isinstance(c.func, ast.Name) else None
+            if cname is not None and summ.call_mutates_args(cname):
+                for a in list(c.args) + [k.value for k in c.keywords]:
+                    a = a.value if isinstance(a, ast.Starred) else a
+                    if unparse(a) in rc or (isinstance(a, ast.Attribute) and a.attr in ra):
+                        return False
     return True
 
 
@@ -2179,6 +2337,8 @@ def _simplify(fn, summ, canon=None):
         fn = n_coalesce(fn)
         fn = n_known(fn)
         fn = n_temp(fn, summ)
+        if not os.environ.get("PGV_NO_ORDER"):
+            rewrite_blocks(fn, lambda b, o, f_: n_order(b, summ))
         fn = n_store_forward(fn, summ)
         fn = n_ctor_alias(fn, summ)
         fn = _Expr().visit(fn)
